@@ -51,4 +51,19 @@ func init() {
 			Rules: []*RuleResult{c.rule("R12", ruleR12), c.rule("R12g", ruleR12g)},
 			Explain: "partial"}
 	}}
+	properties["C09"] = propDef{run: func(c *Ctx) *PropertyRun {
+		return &PropertyRun{Level: "other", Trusted: trustedBase, Assume: commonAssumptions,
+			Rules: []*RuleResult{c.rule("R15", ruleR15)},
+			Explain: "partial"}
+	}}
+	properties["C10"] = propDef{run: func(c *Ctx) *PropertyRun {
+		return &PropertyRun{Level: "other", Trusted: trustedBase, Assume: commonAssumptions,
+			Rules: []*RuleResult{c.rule("R16", ruleR16)},
+			Explain: "partial"}
+	}}
+	properties["C05"] = propDef{run: func(c *Ctx) *PropertyRun {
+		return &PropertyRun{Level: "other", Trusted: trustedBase, Assume: commonAssumptions,
+			Rules: []*RuleResult{c.rule("R19", ruleR19)},
+			Explain: "partial"}
+	}}
 }
